@@ -939,6 +939,6 @@ theorem T_C07_source_tests :
           "raise EdgeNotFoundError"]),
        ("EdgeList.add", ["try: v3 = self.find(v0, v1)",
           "except EdgeNotFoundError: v3 = factory.create(v0, v1, v2)",
-          "if v3.is_valid: self.edges.append(v3)", "return v3"])] := by decide
+          "if v3.is_valid: self.edges.append(v3)", "return v3"])] := by rfl
 
 end CBV.C07
